@@ -40,6 +40,8 @@ type IterCase struct {
 	TwoP    string  `json:"twop,omitempty"`
 	Calls   string  `json:"calls"`           // H = HasNext, N = Next ; lower case h/n = the same on side R
 	Whole   string  `json:"whole,omitempty"` // terminal operation applied after the calls
+	LCtor   string  `json:"lctor,omitempty"` // list walk: how the lazy list is made from the source
+	Walk    string  `json:"walk,omitempty"`  // list walk: T = Tail, H = Head, E = IsEmpty, R = back to the first cell
 	Origin  string  `json:"origin,omitempty"`
 	Comment string  `json:"comment,omitempty"`
 }
@@ -246,6 +248,9 @@ func applyStage(it fp.Iterator[int], st Stage) fp.Iterator[int] {
 		return iterator.Scan(it, 0, func(b, a int) int { return b + a })
 	case "zipidx":
 		return iterator.Map(iterator.ZipWithIndex(it), zipEnc)
+	case "zerotail":
+		var z fp.Iterator[int]
+		return it.Concat(z)
 	case "tap":
 		return it.TapEach(func(int) {})
 	case "id":
@@ -295,7 +300,112 @@ func stagesJSON(p []Stage) []map[string]any {
 	return out
 }
 
+// c20List walks a lazy fp.List cell by cell in an arbitrary order of Head / IsEmpty / Tail calls.
+func c20List(out *Out, c IterCase) {
+	cnt := &srcCounter{}
+	src, _, _ := IterCase{Src: c.Src}.source(cnt)
+	genCalls := map[int]int{}
+	var l fp.List[int]
+	pipe := []Stage{}
+	f := seqFn("inc")
+	switch c.LCtor {
+	case "Collect":
+		l = list.Collect(src)
+	case "ToList":
+		l = iterator.ToList(src)
+	case "FromSeq":
+		l = list.FromSeq(fp.Seq[int](c.Src))
+	case "Of":
+		l = list.Of(c.Src...)
+	case "Generate":
+		l = list.Generate(func(i int) fp.Option[int] {
+			genCalls[i]++
+			if i < len(c.Src) {
+				return fp.Some(c.Src[i])
+			}
+			return fp.None[int]()
+		})
+	case "Map":
+		l = list.Map(list.Collect(src), f)
+		pipe = []Stage{{T: "map", F: "inc"}}
+	case "FilterMap":
+		p := seqPred("odd")
+		l = list.FilterMap(list.Collect(src), func(x int) fp.Option[int] {
+			if p(x) {
+				return fp.Some(x)
+			}
+			return fp.None[int]()
+		})
+		pipe = []Stage{{T: "filter", P: "odd"}}
+	case "ZipWithIndex":
+		l = list.Map(list.ZipWithIndex(list.Collect(src)), zipEnc)
+		pipe = []Stage{{T: "zipidx"}}
+	case "Scan":
+		l = list.Scan(list.Collect(src), 0, func(b, a int) int { return b + a })
+		pipe = []Stage{{T: "scan"}}
+	case "Combine":
+		l = list.Combine(list.Collect(src), list.Of(7, 8))
+		pipe = []Stage{{T: "concat", Lit: []int{7, 8}}}
+	case "Concat":
+		l = list.Concat(9, list.Collect(src))
+		pipe = []Stage{{T: "prepend", Lit: []int{9}}}
+	case "FlatMap":
+		l = list.FlatMap(list.Collect(src), func(x int) fp.List[int] { return list.Of(x, f(x)) })
+		pipe = []Stage{{T: "flatmap", F: "inc"}}
+	default:
+		fatal("c20: unknown list constructor", c.LCtor)
+	}
+	out.Ev("Init", "src", c.Src, "pipe", stagesJSON(pipe), "pipeR", stagesJSON(nil), "two", false, "unord", false,
+		"pulled0", cnt.pulled, "slack0", 2, "lazy", false, "case", caseJSON(c))
+	cur, pos := l, 0
+	for i := 0; i < len(c.Walk); i++ {
+		stop := false
+		func() {
+			op := c.Walk[i]
+			defer func() {
+				if r := recover(); r != nil {
+					if op == 'H' {
+						out.Ev("List", "op", "H", "pos", pos, "v", 0, "pn", true, "r", false)
+						return
+					}
+					out.Ev("ListPanic", "op", string(op), "pos", pos, "v", fmt.Sprint(r))
+					stop = true
+				}
+			}()
+			switch op {
+			case 'H':
+				v := cur.Head()
+				out.Ev("List", "op", "H", "pos", pos, "v", v, "pn", false, "r", false)
+			case 'E':
+				out.Ev("List", "op", "E", "pos", pos, "v", 0, "pn", false, "r", cur.IsEmpty())
+			case 'T':
+				if pos <= len(c.Src)*2+3 {
+					cur = cur.Tail()
+					pos++
+				}
+			case 'R':
+				cur, pos = l, 0
+			}
+		}()
+		if stop {
+			break
+		}
+	}
+	mx := 0
+	for _, n := range genCalls {
+		if n > mx {
+			mx = n
+		}
+	}
+	out.Ev("GenCalls", "max", mx, "pulled", cnt.pulled, "srclen", len(c.Src))
+	out.Ev("End")
+}
+
 func c20Run(out *Out, c IterCase) {
+	if c.LCtor != "" {
+		c20List(out, c)
+		return
+	}
 	cnt := &srcCounter{}
 	var itL, itR fp.Iterator[int]
 	lazy, unord := false, false
@@ -594,6 +704,33 @@ func genCases(g IterGen) []IterCase {
 				c.Pipe = []Stage{randStage(r, false)}
 			}
 			cs = append(cs, c)
+		case "zero":
+			// the zero-value Iterator must behave as empty in every method: enumerate them all
+			calls := []string{"", "H", "N", "HNHN", "HHNN"}
+			for _, st := range append(append([]string{}, lazyStages...), "sort", "reverse") {
+				for _, cl := range calls {
+					stage := Stage{T: st, N: 2, P: "true", F: "inc", Lit: []int{4}}
+					cs = append(cs, IterCase{Src: []int{}, Ctor: "zero", Pipe: []Stage{stage}, Calls: cl, Whole: wholes[r.Intn(len(wholes))]})
+					stage.Impl = "func"
+					cs = append(cs, IterCase{Src: []int{}, Ctor: "zero", Pipe: []Stage{stage}, Calls: cl, Whole: "Count"})
+				}
+			}
+			for _, w := range append(append([]string{}, wholes...), "Count") {
+				cs = append(cs, IterCase{Src: []int{}, Ctor: "zero", Calls: "HNH", Whole: w})
+			}
+			for _, two := range []string{"dup", "span", "partition"} {
+				cs = append(cs, IterCase{Src: []int{}, Ctor: "zero", Two: two, TwoP: "true", Calls: "HhNnHh"})
+			}
+			// a zero value in tail position of Concat
+			cs = append(cs, IterCase{Src: []int{1, 2}, Ctor: "IteratorOfSeq", Pipe: []Stage{{T: "zerotail"}}, Calls: "HNHNHN"})
+			i = g.N
+		case "listwalk":
+			lc := []string{"Collect", "ToList", "FromSeq", "Of", "Generate", "Map", "FilterMap", "ZipWithIndex", "Scan", "Combine", "Concat", "FlatMap"}
+			w := make([]byte, r.Intn(g.Calls+1))
+			for j := range w {
+				w[j] = "TTTHHEER"[r.Intn(8)]
+			}
+			cs = append(cs, IterCase{Src: src(g.Len), LCtor: lc[r.Intn(len(lc))], Walk: string(w)})
 		case "twosided":
 			c := IterCase{Src: src(g.Len), Two: []string{"dup", "span", "partition"}[r.Intn(3)], TwoP: seqPreds[r.Intn(len(seqPreds))],
 				Calls: randCalls(r, r.Intn(g.Calls+1), true)}
